@@ -28,7 +28,10 @@ def dom_canaries(traces, rng, count=10):
         evs = z['ev']
         if kind == 0:
             # a snapshot that differs in one option / content of one tree
-            cand = [e for e in evs if e['snaps']]
+            # (a parse event's snapshot is ADOPTED in adopt mode, so corrupting it there proves nothing)
+            cand = [e for e in evs if e['snaps'] and not (z['chk']['adopt'] and e['k'] == 'parse')]
+            if not cand:
+                continue
             e = rng.choice(cand)
             s = e['snaps'][-1]
             s['opts'] = s['opts'][1:] if s['opts'] else [{'k': [120], 's': [49], 't': 'int'}]
